@@ -7,6 +7,7 @@ use std::ops::Bound;
 use super::*;
 use crate::catalog::ColumnRefId;
 use crate::storage::KeyRange;
+use crate::types::{DataType, DataValue};
 
 /// The data type of range analysis.
 ///
@@ -106,22 +107,30 @@ fn is_primary_key_range(expr: &str, columns: &str) -> impl Fn(&mut EGraph, Id, &
     let var_ = var(expr);
     let columns = var(columns);
     move |egraph, _, subst| {
-        let Some((column, _)) = &egraph[subst[var_]].data.range else {
+        let Some((column, range)) = &egraph[subst[var_]].data.range else {
             return false;
         };
-        let first_scanned = egraph[subst[columns]]
-            .as_list()
-            .first()
-            .and_then(|id| egraph[*id].nodes.iter().find_map(|e| match e {
+        // the storage compares the bounds with INT keys (block index and end of range):
+        // a bound of any other type (`a < 2.5`, `a < 3000000000`) must stay in a filter
+        let is_int = |bound: &Bound<DataValue>| match bound {
+            Bound::Unbounded => true,
+            Bound::Included(v) | Bound::Excluded(v) => matches!(v, DataValue::Int32(_)),
+        };
+        if !is_int(&range.start) || !is_int(&range.end) {
+            return false;
+        }
+        let first_scanned = egraph[subst[columns]].as_list().first().and_then(|id| {
+            egraph[*id].nodes.iter().find_map(|e| match e {
                 Expr::Column(c) => Some(*c),
                 _ => None,
-            }));
+            })
+        });
         // ... and looks the start row up in the block index of the table's first column
         if first_scanned != Some(*column) || column.column_id != 0 {
             return false;
         }
         if let Some(col) = egraph.analysis.catalog.get_column(column) {
-            col.is_primary()
+            col.is_primary() && col.data_type() == DataType::Int32
         } else {
             // handle the case that catalog is not initialized, like in test cases
             false
